@@ -460,7 +460,7 @@ def _c02():
     for k, what, b in [("wait_sleep", "external waiter asleep in task_group::wait while a worker finishes the last task", (2, 3)),
                        ("enqueue", "enqueue with nobody waiting; worker spinning", (3, 4)), ("enqueue2", "second enqueue meets a worker that is leaving / going to sleep", (2, 3)),
                        ("enqueue1", "arena with max_concurrency 1 (mandatory worker)", (3, 4)), ("enqueue_limit1", "max_allowed_parallelism 1: soft limit 0, mandatory concurrency", (3, 3)),
-                       ("enqueue_gc", "the parallelism limit drops to 1 while the enqueue is in flight", (1, 2)), ("two_arenas", "two arenas with enqueued work compete for one worker", (2, 3)),
+                       ("enqueue_gc", "the parallelism limit drops to 1 while the enqueue is in flight", (1, 2)), ("two_arenas", "two arenas with enqueued work compete for one worker", (2, 3)), ("gc_pending", "the parallelism limit drops to 1 while a mandatory request is already pending and unserved (saturated arena); later enqueues into an idle arena and into the saturated one must still run", (1, 2)),
                        ("execute_full", "task_arena::execute with no free slot (delegation + exit monitor)", (1, 2))]:
         L.append(leg("rt-" + k, "c02_rt", b, {"kind": k}, what=what, weight=2.0 if b[0] == 1 else 1.0))
     L.append(leg("rt-execute_handover", "c02_rt", (1, 2), {"kind": "execute_handover"}, what="two threads asleep in execute() of a saturated arena; the freed slot is announced to the one whose functor was already run by the worker: it must pass the announcement on", weight=2.0))
